@@ -80,7 +80,15 @@ def core3Sample : Core3.Func :=
    [⟨.name [101], [⟨some (.id 1), 0, [.flags [0, 1], .tyval (.int 32) (.loc (.name [120])), .val (.const (.int 7))], .none⟩,
                   ⟨some (.name [99]), 13, [.tyval (.int 32) (.loc (.id 1)), .val (.loc (.id 0))], .none⟩],
       ⟨none, 28, [.val (.loc (.name [99])), .lab (.id 2), .lab (.id 2)], .none⟩⟩,
-    ⟨.id 2, [⟨none, 24, [.flags [], .tyval (.int 32) (.loc (.id 1)), .tyval (.ptr (.int 32) 0) (.const .null), .align (some 4)], .none⟩],
+    ⟨.id 2, [⟨none, 24, [.flags [], .tyval (.int 32) (.loc (.id 1)), .tyval (.ptr (.int 32) 0) (.const .null), .okw none, .align (some 4)], .none⟩,
+             -- store atomic volatile i32 %1, i32* null seq_cst, align 4 / fence acquire
+             ⟨none, 24, [.flags [0, 1], .tyval (.int 32) (.loc (.id 1)), .tyval (.ptr (.int 32) 0) (.const .null), .okw (some 5), .align (some 4)], .none⟩,
+             ⟨none, 88, [.kw 2], .none⟩,
+             -- %a = load atomic i32, i32* null monotonic / %cx = cmpxchg weak i32* null, i32 %a, i32 7 acq_rel monotonic, align 8 / %rm = atomicrmw volatile umax i32* null, i32 %a seq_cst
+             ⟨some (.name [97]), 23, [.flags [0], .ty (.int 32), .tyval (.ptr (.int 32) 0) (.const .null), .okw (some 1), .align none], .none⟩,
+             ⟨some (.name [99, 120]), 89, [.flags [0], .tyval (.ptr (.int 32) 0) (.const .null), .tyval (.int 32) (.loc (.name [97])), .tyval (.int 32) (.const (.int 7)),
+                .kw 4, .kw 1, .align (some 8)], .none⟩,
+             ⟨some (.name [114, 109]), 90, [.flags [0], .kw 11, .tyval (.ptr (.int 32) 0) (.const .null), .tyval (.int 32) (.loc (.name [97])), .kw 5, .align none], .none⟩],
       ⟨none, 26, [.retv (some (.int 32, .loc (.id 1)))], .none⟩⟩,
     ⟨.name [115], [],
       ⟨none, 82, [.tyval (.int 32) (.loc (.id 1)), .lab (.id 2)], .cases [(.int 32, .int 3, .id 2), (.int 32, .int (-1), .name [115])]⟩⟩,
